@@ -1,7 +1,7 @@
 (* The executable interface of the model: objects (new / parse / reset / obs),
    operation histories, and the single entry point the correspondence driver
    calls.  The theorems in Properties/ are stated over these same functions. *)
-From Sipsp Require Export IP URI Msg MsgSig.
+From Sipsp Require Export IP URI Msg MsgSig StrSig.
 From Sipsp Require Import Tables.
 
 Record obj (S : Type) := mkobj {
@@ -155,7 +155,10 @@ Definition run_msgsig (nums : list Z) (buf : list byte) : list Z :=
   let m0 := msg_init 0 (repeat hdr0 (cap_of defaultHdrs hcap)) (repeat pfrom0 (cap_of defaultContacts ccap)) in
   match parse_sipmsg flags buf offs m0 with
   | Done o e m =>
-    let r := get_msg_sig (fun _ => (cidsig, cidslen)) (fun _ => fromsig) (fun _ => viasig) m buf in
+    (* the string signatures are computed by the model (StrSig.v); only the place of the IP address inside the
+       Call-ID, found by ContainsIP4 / ContainsIP6, is supplied (nums 8..10) *)
+    let has := negb (nthz nums 8 =? 0)%Z in let io := Z.to_N (nthz nums 9) in let il := Z.to_N (nthz nums 10) in
+    let r := get_msg_sig (fun cid => callid_sig_at has io il cid) str_sig0 viabr_sig0 m buf in
     [n2z o; n2z (err_code e)] ++ obs_msgsig r
     ++ (match r with Some (s, _) => map n2z (sig_string s) | None => [] end)
   | Panic => [zPANIC]
@@ -206,5 +209,8 @@ Definition entry (kind : N) (nums : list Z) (strs : list (list byte)) : list Z :
     end
   | 117 => [n2z (uri_param_resolve s0)]
   | 120 => run_msgsig nums s0
+  | 121 => [n2z (str_sig0 s0)]
+  | 122 => match viabr_sig_len s0 with Some (sg, l) => [n2z sg; n2z l] | None => [zPANIC] end
+  | 123 => let '(sg, l) := callid_sig_at (negb (nthz nums 0 =? 0)%Z) (Z.to_N (nthz nums 1)) (Z.to_N (nthz nums 2)) s0 in [n2z sg; n2z l]
   | _ => []
   end.
